@@ -17,8 +17,8 @@ func init() {
 	addCheck(&CheckSpec{
 		Property: "C03", Level: "exploration", OwnsPanics: true,
 		Rule:   "core scenario with the lifecycle mix: Shutdown at a tape-chosen step while producers, the peer, Reset/ResetAll/TokenEvent/TokenEventWithID/TokenReset callers and foreign-goroutine event emitters are live; 1-3 Serve/Shutdown cycles on one Service.",
-		Oracle: "bounded progress once scripted operations stop (Shutdown and Serve return within 60 simulated seconds of the last enabled action); no panic in any task or library goroutine; at Shutdown's return no callback is executing and none starts later in that epoch; connection closed exactly once per epoch; calls entirely inside the started window take effect, calls entirely inside the stopped window have none.",
-		Scen:   []ScenBudget{{"core", 8000, 500000}},
+		Oracle: "(tier B runs, real nats.go: Serve returns after Shutdown and the connection is closed when Shutdown returns.) bounded progress once scripted operations stop (Shutdown and Serve return within 60 simulated seconds of the last enabled action); no panic in any task or library goroutine; at Shutdown's return no callback is executing and none starts later in that epoch; connection closed exactly once per epoch; calls entirely inside the started window take effect, calls entirely inside the stopped window have none.",
+		Scen:   []ScenBudget{{"core", 8000, 500000}, {"tierb", 200, 10000}},
 		Probes: []string{"submission parked between started-check and lock while Shutdown closes the queue", "event parked before its publish while Shutdown runs", "worker woke to a nil queue (closing)", "Shutdown drops work that is queued but not started", "enqueue onto the registered work item of a busy group", "fault.slow-consumer-drop", "parallel handlers overlapped"},
 	})
 	addCheck(&CheckSpec{
